@@ -1,6 +1,7 @@
 import AlgopyVerif.Proofs.Factor
 import AlgopyVerif.Proofs.EighStep
 import AlgopyVerif.Proofs.FactorTri
+import AlgopyVerif.Proofs.FactorTall
 import AlgopyVerif.Proofs.SvdBlock
 /-!
 # C08 — matrix factorizations satisfy their defining equations modulo t^D
@@ -28,7 +29,7 @@ eigenvalues of `A₀` are distinct (clusters are singletons), the relaxed block 
 `svd_from_block_eigh`, `svd_square_full_rank`: `UTPM.svd` reformulates to `eigh` of `B = [[0, A], [Aᵀ, 0]]`; over any commutative ring
 (`ℝ[t]/(t^D)`) the eigen-equation of `B` for the selected columns *is* `A V = U diag(s)`, `Aᵀ U = V diag(s)`, and for a square matrix
 of full rank with `V Vᵀ = 1` this is `A = U diag(s) Vᵀ`.  Not proved
-(partial): tall / wide / full QR, the recursion of `_eigh` over clusters for repeated
+(partial): wide / full QR (tall QR: `qr_tall_defining_equation`, `qr_tall_orthogonality`, `qr_tall_R_upper_triangular`), the recursion of `_eigh` over clusters for repeated
 eigenvalues, `eig`, orthogonality and the `qr_full` completion of `svd` — checked by residuals on the implementation.
 -/
 open Matrix AV.Factor
@@ -122,6 +123,35 @@ theorem lu_masks (lt : n → n → Prop) [DecidableRel lt] (M : Matrix n n K) (i
 example : (∀ i j : Fin 3, i < j ∨ i = j ∨ j < i) ∧ (∀ i j : Fin 3, i < j → ¬ j < i) ∧ (∀ i : Fin 3, ¬ i < i) := by
   refine ⟨?_, ?_, ?_⟩ <;> decide
 
+
+section tall_qr
+variable {m : Type} [Fintype m] [DecidableEq m]
+
+/-- **tall QR** (`M > N`; `Q` is `m × n` with orthonormal columns, `R` is `n × n`): one pass of the loop of `_qr_rectangular`, whose
+last step is `Q_d = (H − Q_0 R_d) R_0⁻¹`, gives the order-`d` coefficient of `Q R = A` … -/
+theorem qr_tall_defining_equation (lt : n → n → Prop) [DecidableRel lt] (A Q : ℕ → Matrix m n K) (R : ℕ → Matrix n n K)
+    (Rinv : Matrix n n K) (d : ℕ) (hd : 1 ≤ d) (hinv : Rinv * R 0 = 1) (st : QRTallStep lt A Q R Rinv d) :
+    ∑ k ∈ Finset.range (d + 1), Q k * R (d - k) = A d := qr_tall_eq lt A Q R Rinv d hd hinv st
+
+/-- … of `QᵀQ = 1` (columns stay orthonormal at every order) … -/
+theorem qr_tall_orthogonality (lt : n → n → Prop) [DecidableRel lt] (A Q : ℕ → Matrix m n K) (R : ℕ → Matrix n n K)
+    (Rinv : Matrix n n K) (d : ℕ) (hd : 1 ≤ d) (h0 : (Q 0)ᵀ * Q 0 = 1) (hinv' : R 0 * Rinv = 1) (st : QRTallStep lt A Q R Rinv d) :
+    ∑ k ∈ Finset.range (d + 1), (Q k)ᵀ * Q (d - k) = 0 := qr_tall_qtq lt A Q R Rinv d hd h0 hinv' st
+
+/-- … and an upper triangular `R_d` -/
+theorem qr_tall_R_upper_triangular (lt : n → n → Prop) [DecidableRel lt] (hneg : ∀ i k j, lt j i → lt k i ∨ lt j k)
+    (hasym : ∀ i j, lt i j → ¬ lt j i) (A Q : ℕ → Matrix m n K) (R : ℕ → Matrix n n K) (Rinv : Matrix n n K) (d : ℕ)
+    (hinv : Rinv * R 0 = 1) (hR0 : IsUpper lt (R 0)) (st : QRTallStep lt A Q R Rinv d) : IsUpper lt (R d) :=
+  qr_tall_R_upper lt hneg hasym A Q R Rinv d hinv hR0 st
+
+/-- non-vacuity: a 2 × 1 matrix with an orthonormal column meets `Q_0ᵀ Q_0 = 1` without `Q_0 Q_0ᵀ = 1` -/
+example : (!![(1:ℚ); 0])ᵀ * !![(1:ℚ); 0] = 1 ∧ !![(1:ℚ); 0] * (!![(1:ℚ); 0])ᵀ ≠ 1 := by
+  constructor
+  · ext i j; fin_cases i; fin_cases j; simp [Matrix.mul_apply]
+  · intro h
+    have := congrFun (congrFun h 1) 1
+    simp [Matrix.mul_apply] at this
+end tall_qr
 
 section svd
 variable {S : Type} [CommRing S] {m n r : Type} [Fintype m] [Fintype n] [Fintype r] [DecidableEq m] [DecidableEq n] [DecidableEq r]
